@@ -21,13 +21,13 @@ package api
 //@ ghost field WebsocketDataWriter.$writes int
 
 //@ iface ShipConnectionInfoProviderInterface.IsRemoteServiceForSKIPaired(ski) pure
-//@   ensures result == $Trusted[ski]
+//@   ensures result == $Trusted[norm(ski)]
 //@ iface ShipConnectionInfoProviderInterface.IsAutoAcceptEnabled() pure
 //@   ensures result == $AutoAccept
 //@ iface ShipConnectionInfoProviderInterface.AllowWaitingForTrust(ski) pure
 //@ iface ShipConnectionInfoProviderInterface.HandleShipHandshakeStateUpdate(ski, state)
-//@   ensures $Trusted[ski] == (old($Trusted[ski]) || state.State == model.SmeHelloStateOk)
-//@   modifies $Trusted[ski]
+//@   ensures $Trusted[norm(ski)] == (old($Trusted[norm(ski)]) || state.State == model.SmeHelloStateOk)
+//@   modifies $Trusted[norm(ski)]
 //@ iface ShipConnectionInfoProviderInterface.HandleConnectionClosed(conn, done)
 //@   ensures conn.$reports == old(conn.$reports) + 1
 //@   modifies conn.$reports
